@@ -62,7 +62,7 @@ def node_s(depth):
     content = st.tuples(st.sampled_from(["rand", "rand", "text", "ws"]), size, st.integers(0, 10_000)).map(list)
     fname = st.sampled_from(FILE_NAMES)
     # "link": the path named in the description is a symbolic link to the file (a build tree linking to artifacts stored elsewhere)
-    fileref = st.fixed_dictionaries({"name": fname, "content": content, "abs": st.booleans(), "link": st.sampled_from([False, False, False, True])})
+    fileref = st.fixed_dictionaries({"name": fname, "content": content, "abs": st.booleans(), "link": st.sampled_from([False, False, False, True, "dotdot"])})
     block = st.fixed_dictionaries(
         {
             "alg": G.hash_s,
@@ -123,6 +123,21 @@ class Builder:
         full = os.path.join(self.root, rel)
         os.makedirs(os.path.dirname(full), exist_ok=True)
         data = content_bytes(fileref["content"])
+        if fileref.get("link") == "dotdot" and not os.path.lexists(full) and "/" not in fileref["name"] and not os.path.lexists(os.path.join(os.path.dirname(full), "out")):
+            # the description names <dir>/out/../<name>, where out is a symbolic link to a directory elsewhere: the operating system finds
+            # store/v2/<name> - a file of the same name at the textually collapsed place <dir>/<name> is another file
+            base = os.path.dirname(full)
+            os.makedirs(os.path.join(base, "store", "v2", "DFU"), exist_ok=True)
+            os.symlink(os.path.join("store", "v2", "DFU"), os.path.join(base, "out"))
+            with open(os.path.join(base, "store", "v2", fileref["name"]), "wb") as fh:
+                fh.write(data)
+            with open(full, "wb") as fh:
+                fh.write(b"left-over of an earlier build at the textually collapsed path " + data[::-1])
+            self.styles.add("dotdot-after-symlinked-directory")
+            self.sizes.add(len(data) if len(data) in SIZES else ("s" if len(data) < 65536 else "L"))
+            self.styles.add("abs" if fileref["abs"] else "rel")
+            rel2 = os.path.join(sub, "out", "..", fileref["name"]) if sub else os.path.join("out", "..", fileref["name"])
+            return (os.path.join(self.root, rel2) if fileref["abs"] else rel2), data
         if fileref.get("link") and not os.path.lexists(full):
             target = os.path.join(os.path.dirname(full), "artifacts-store", "v1.2", os.path.basename(full) + ".real")
             os.makedirs(os.path.dirname(target), exist_ok=True)
@@ -508,7 +523,7 @@ def finalize(ctx, m, ev):
     c = m["counters"]
     ev["coverage"]["excluded_known"] = {"F9": c.get("excluded_known:F9", 0)}
     need = ["digest:file", "digest:file_direct", "digest:raw", "digest:envelope", "size:file", "size:file_direct", "size:raw", "size:envelope",
-            "payload:path", "payload:hex", "dep:inline", "dep:path", "wrapper-digest:file", "wrapper-digest:file_direct", "wrapper-digest:raw", "depth:3", "style:abs", "style:rel", "style:hexlike-name", "style:hexlike-envelope-ref", "style:symlink", "node:members-out-of-key-order", "dep-file:stale-digest", "dep-file:reordered", "route:json", "route:yaml", "loaded-before-the-artifacts-were-rebuilt"]
+            "payload:path", "payload:hex", "dep:inline", "dep:path", "wrapper-digest:file", "wrapper-digest:file_direct", "wrapper-digest:raw", "depth:3", "style:abs", "style:rel", "style:hexlike-name", "style:hexlike-envelope-ref", "style:symlink", "node:members-out-of-key-order", "dep-file:stale-digest", "dep-file:reordered", "route:json", "route:yaml", "loaded-before-the-artifacts-were-rebuilt", "style:dotdot-after-symlinked-directory"]
     for n in need:
         if not c.get(n):
             raise boot.HarnessError(f"interesting class {n} is empty")
